@@ -15,7 +15,7 @@ import (
 
 func init() {
 	Registry["C04"] = Set{
-		Explanation: "Decides structural clauses of link/monitor notification: L1 each of the 8 local branches of RouteLink*/RouteMonitor* consults the identity table of the target's kind (PID->processes, ProcessID->names, Alias->aliases, Event->events), returns an error on the not-found edge before any relation is added, and link functions add links / monitor functions add monitors with the function's own target; L2 every removal of an identity that can be linked or monitored is followed by the RouteTerminate* of the same kind (process release, UnregisterName, DeleteAlias, unregisterEvent, the meta termination sites, failed spawn); L3 the existence check and the relation insert are ordered or atomic against the terminator's delete-then-drain (today all 8 sites check, then insert, without re-validation: open known finding F-F); L4 each RouteTerminate* drains with exactly one CleanupTarget and sends exactly one exit per link consumer and one High-priority down per monitor consumer, each carrying the function's target and reason; remote consumers' nodes get one Terminate frame; L5 RouteUnlink*/RouteDemonitor* call the matching Remove*; L7 in the default target manager every insert/delete on the relation set is paired on every path with the matching change of the per-target index, under the write lock. Added while probing: L2c the per-process alias list the drain walks is maintained by remove-by-swap correctly; L4 also requires that the exit/down loops walk the whole consumer lists CleanupTarget returned (first result: links, second: monitors); L6 LinkChild on every spawn form adds the parent->child link after the child exists; L7 additionally: an index entry is deleted only when its list is empty; L8 the helper that delivers exits builds a mailbox message of type Exit. L9 no critical section of the default target manager's lock calls anything that takes that lock again (lock re-entrancy through the call graph). L10 lock pairing — in every function that touches the target manager's lock a forward data flow over (held read/write, unlock deferred) shows: no return while the lock is held without a deferred unlock, no unlock (explicit or deferred) of a lock that is not held or of the other kind, no second lock (a leaked lock blocks every later link/monitor/termination for ever, an unlock of an unlocked mutex is a fatal error that takes the node down). L11 every method of the default target manager that changes the relation set takes the write lock exactly once, never the read lock, and touches the maps only inside that one critical section (what a Cleanup* returns is exactly what it removed). L2c also anchors on the cut itself: a field slice cut by its first element must have saved that element into the removed slot, cut by its last one after a swap with it or a shift of the tail. L6 for local starts the parent->child link is made by spawn, under LinkChild, before the child is entered into the process table; the spawn forms hand their options through.",
+		Explanation: "Decides structural clauses of link/monitor notification: L1 each of the 8 local branches of RouteLink*/RouteMonitor* consults the identity table of the target's kind (PID->processes, ProcessID->names, Alias->aliases, Event->events), returns an error on the not-found edge before any relation is added, and link functions add links / monitor functions add monitors with the function's own target; L2 every removal of an identity that can be linked or monitored is followed by the RouteTerminate* of the same kind (process release, UnregisterName, DeleteAlias, unregisterEvent, the meta termination sites, failed spawn); L3 the existence check and the relation insert are ordered or atomic against the terminator's delete-then-drain (today all 8 sites check, then insert, without re-validation: open known finding F-F); L4 each RouteTerminate* drains with exactly one CleanupTarget and sends exactly one exit per link consumer and one High-priority down per monitor consumer, each carrying the function's target and reason; remote consumers' nodes get one Terminate frame; L5 RouteUnlink*/RouteDemonitor* call the matching Remove*; L7 in the default target manager every insert/delete on the relation set is paired on every path with the matching change of the per-target index, under the write lock. Added while probing: L2c the per-process alias list the drain walks is maintained by remove-by-swap correctly; L4 also requires that the exit/down loops walk the whole consumer lists CleanupTarget returned (first result: links, second: monitors); L6 LinkChild on every spawn form adds the parent->child link after the child exists; L7 additionally: an index entry is deleted only when its list is empty; L8 the helper that delivers exits builds a mailbox message of type Exit. L9 no critical section of the default target manager's lock calls anything that takes that lock again (lock re-entrancy through the call graph). L10 lock pairing — in every function that touches the target manager's lock a forward data flow over (held read/write, unlock deferred) shows: no return while the lock is held without a deferred unlock, no unlock (explicit or deferred) of a lock that is not held or of the other kind, no second lock (a leaked lock blocks every later link/monitor/termination for ever, an unlock of an unlocked mutex is a fatal error that takes the node down). L11 every method of the default target manager that changes the relation set takes the write lock exactly once, never the read lock, and touches the maps only inside that one critical section (what a Cleanup* returns is exactly what it removed). L2c also anchors on the cut itself: a field slice cut by its first element must have saved that element into the removed slot, cut by its last one after a swap with it or a shift of the tail. L6 for local starts the parent->child link is made by spawn, under LinkChild, before the child is entered into the process table; the spawn forms hand their options through. L6p the remote spawn forms record, under LinkParent and after a successful RouteSpawn, the mirror relation (remote child -> this process) on the parent's node, which is the node that reports the parent's termination.",
 		NotDecided: []string{
 			"behaviour of user-supplied TargetManager implementations",
 			"delivery of the notification message itself (C02), remote fan-out framing (C12/C14)",
@@ -47,6 +47,7 @@ func runC04(p *load.Program, r *core.Report) {
 	c04Index(a, r)
 	c04SpawnLinks(a, r)
 	c04SpawnLinkChild(a, r, "C04.L6 link-child-on-spawn")
+	remoteSpawnParentLink(a, r, "C04.L6p remote-child-linked-to-parent-on-both-nodes")
 	c04ExitSignal(a, r)
 	c04SingleCriticalSection(a, r)
 	lockPairing(a.P, r, "C04.L10 relation-lock-paired", "C04.L10", 11, func(o string) bool { return strings.Contains(o, "defaultTargetManager") })
@@ -149,7 +150,16 @@ func c04SpawnLinks(a *Anchors, r *core.Report) {
 		var add ssa.Instruction
 		eachInstr(f, func(in ssa.Instruction) {
 			if callsNamed(in, "AddLink") {
-				add = in
+				// the parent->child link (the remote forms also record the mirror of the child->parent link: L6p)
+				c2 := callCommon(in)
+				as := c2.Args
+				if !c2.IsInvoke() {
+					as = as[1:]
+				}
+				_, q0, _ := fieldPath(as[0])
+				if add == nil || (len(q0) > 0 && q0[len(q0)-1] == "pid") {
+					add = in
+				}
 			}
 		})
 		var probs []string
@@ -1093,6 +1103,71 @@ func c04SingleCriticalSection(a *Anchors, r *core.Report) {
 			r.Bad(rule, key, fn, a.P.Pos(f.Pos()), inst, strings.Join(uniq(probs), "; ")+": collecting and deleting are no longer one atomic step — a relation added in between is dropped without notification, or a requester that took its relation back is notified all the same")
 		} else {
 			r.OK(rule, key, fn, a.P.Pos(f.Pos()), inst, fmt.Sprintf("one Lock, %d map accesses, all inside it", len(accesses)))
+		}
+	}
+}
+
+// remoteSpawnParentLink: with LinkParent the child's node links the child to the (remote) parent, but
+// the termination of the parent is reported by the PARENT's node, which walks its own relation
+// table: the remote spawn forms record the mirror relation (consumer = the remote child, target =
+// this process) after a successful RouteSpawn, under LinkParent. Without it the remote child
+// survives its parent.
+func remoteSpawnParentLink(a *Anchors, r *core.Report, rule string) {
+	rid := strings.SplitN(rule, " ", 2)[0]
+	r.Floor(rule, 2)
+	for _, f := range funcsOfPkgs(a.P, "node") {
+		if f.Parent() != nil || !recvIs(f, a.ProcessT) {
+			continue
+		}
+		var sp *ssa.Call
+		eachInstr(f, func(in ssa.Instruction) {
+			if c, ok := in.(*ssa.Call); ok && callsNamed(in, "RouteSpawn") {
+				sp = c
+			}
+		})
+		if sp == nil {
+			continue
+		}
+		fn := fname(f)
+		key := rid + "|" + f.Name() + "|parent-link"
+		inst := f.Name() + ": with LinkParent this node records that the remote child is linked to this process"
+		pidv := tupleExtract(sp, 0)
+		ok := false
+		eachInstr(f, func(in ssa.Instruction) {
+			if !callsNamed(in, "AddLink") {
+				return
+			}
+			cc := callCommon(in)
+			args := cc.Args
+			if !cc.IsInvoke() {
+				args = args[1:]
+			}
+			_, p1, _ := fieldPath(stripIface(args[1]))
+			if args[0] != pidv || len(p1) == 0 || p1[len(p1)-1] != "pid" {
+				return
+			}
+			guarded := false
+			eachInstr(f, func(x ssa.Instruction) {
+				v, isV := x.(ssa.Value)
+				if !isV {
+					return
+				}
+				if _, path, okp := fieldPath(v); okp && len(path) > 0 && path[len(path)-1] == "LinkParent" {
+					if t, _, _ := boolEdges(v); len(t) > 0 && edgesDominate(t, in) {
+						guarded = true
+					}
+				}
+			})
+			if errv := tupleExtract(sp, 1); errv != nil && guarded {
+				if isNil, _, _ := nilEdges(errv); len(isNil) > 0 && edgesDominate(isNil, in) {
+					ok = true
+				}
+			}
+		})
+		if ok {
+			r.OK(rule, key, fn, a.P.Pos(sp.Pos()), inst, "AddLink(childpid, p.pid) under LinkParent after err == nil")
+		} else {
+			r.Bad(rule, key, fn, a.P.Pos(sp.Pos()), inst, "the relation exists only on the child's node: when this process terminates its own node finds no consumer to notify, no Terminate frame is sent and the remote child runs on without its parent")
 		}
 	}
 }
